@@ -103,6 +103,7 @@ pub const MIRRORS: &[(&[&str], &str, &str, &str)] = &[
     (&["C18"], "generator/typescript/utils.rs", "format_choice_options", "Ts.Shape.modelTy"),
     (&["C18"], "generator/typescript/utils.rs", "format_sequence_or_set_members", "Ts.Shape.modelTy"),
     (&["C18", "C16"], "generator/typescript/utils.rs", "to_jer_identifier", "Ts.Shape"),
+    (&["C07"], "generator/typescript/utils.rs", "string_literal", "Ts.Strings.stringLiteral"),
     (&["C18", "C07"], "generator/typescript/utils.rs", "value_to_tokens", "Ts.Values.renderList (the LinkedArrayLikeValue arm)"),
 ];
 
